@@ -390,12 +390,16 @@ func computedMask(typ string, p, m []byte) {
 		}
 	case typ == "sgpd":
 		// seig entries (CencSampleEncryptionInformationGroupEntry): first byte reserved(8)=0
-		if len(p) >= 16 && p[0] >= 1 && string(p[4:8]) == "seig" {
+		if len(p) >= 20 && p[0] >= 1 && string(p[4:8]) == "seig" {
 			dl := int(p[8])<<24 | int(p[9])<<16 | int(p[10])<<8 | int(p[11])
-			n := int(p[12])<<24 | int(p[13])<<16 | int(p[14])<<8 | int(p[15])
+			base := 16 // version 1: version+flags, grouping_type, default_length, entry_count
+			if p[0] >= 2 {
+				base = 20 // version 2: default_group_description_index in front of entry_count
+			}
+			n := int(p[base-4])<<24 | int(p[base-3])<<16 | int(p[base-2])<<8 | int(p[base-1])
 			if dl >= 20 {
-				for i := 0; i < n && 16+i*dl < len(m); i++ {
-					m[16+i*dl] = 0xff
+				for i := 0; i < n && base+i*dl < len(m); i++ {
+					m[base+i*dl] = 0xff
 				}
 			}
 		}
